@@ -115,8 +115,11 @@ func (c Coin) Float64() (float64, error) {
 
 // MultCoin multiplies Coin c by b, returning an error if the values overflow
 func MultCoin(c, b Coin) (Coin, error) {
+	if c == 0 || b == 0 {
+		return 0, nil
+	}
 	a := c * b
-	if a != 0 && a/c != b {
+	if a/c != b {
 		return 0, ErrUint64MultOverflow
 	}
 	return a, nil
